@@ -83,6 +83,7 @@ def main():
     print('runs %d, silent %d, undecided (exit 2) %d, false alarms (exit 1) %d' % (len(res), len(res) - len(bad) - len(und), len(und), len(bad)))
     for k, n in sorted(per.items()): print('  undecided', k[0], k[1], n)
     json.dump({'runs': len(res), 'undecided': len(und), 'false_alarms': [[list(r[0]), r[2]] for r in bad],
+               'undecided_detail': [[r[0][0], r[0][2], r[0][4], r[3]] for r in und],
                'undecided_by_rule': dict(('%s/%s' % k, n) for k, n in per.items())}, open(os.path.join(VERIF, 'evidence', 'rename_probe.json'), 'w'), indent=1)
     return 1 if bad else 0
 
